@@ -165,4 +165,6 @@ def check(ctx, R):
     R.run("C13.c", rule_c, ctx)
     R.run("C13.d", wire_rules.c13_d, ctx)
     R.run("C13.e", rule_e, ctx)
+    from . import preds
+    R.run("C13.p", lambda R, c: preds.rule(R, c, "C13.p", ["is_visible"]), ctx)
     return {}
